@@ -43,7 +43,7 @@ func c17Setup(workDir string) (*c17Tree, error) {
 		for _, f := range inside {
 			t.Inside[f] = "INSIDE[" + f + "] some bytes of this file\n"
 		}
-		outside := []string{"secret.txt", "secret.js", "config.css", "rootx/s.css", "root.bak/a.css", "a.css"}
+		outside := []string{"secret.txt", "secret.js", "config.css", "rootx/s.css", "root.bak/a.css", "a.css", "index.html", "private/index.html"}
 		for i, f := range outside {
 			t.Outside[f] = fmt.Sprintf("%s-%d content of %s\n", c17Canary, i, f)
 		}
@@ -103,7 +103,7 @@ func c17Path(r *rand.Rand, prefix string, t *c17Tree) string {
 		if chance(r, 1, 2) {
 			segs = append([]string{pick(r, []string{"sub", "sub/deep", "."})}, segs...)
 		}
-		segs = append(segs, pick(r, []string{"secret.txt", "secret.js", "config.css", "rootx/s.css", "root.bak/a.css", "a.css"}))
+		segs = append(segs, pick(r, []string{"secret.txt", "secret.js", "config.css", "rootx/s.css", "root.bak/a.css", "a.css", "index.html", "private/index.html"}))
 		return prefix + "/" + strings.Join(segs, "/")
 	case 2: // absolute component
 		return prefix + "/" + pick(r, []string{"/", "//", ""}) + strings.TrimPrefix(filepath.ToSlash(t.Base), "/") + "/" + pick(r, []string{"secret.txt", "secret.js", "root/a.css"})
@@ -124,7 +124,7 @@ func c17Path(r *rand.Rand, prefix string, t *c17Tree) string {
 func runC17(e *Env) {
 	// an application-wide path variable with the name StaticFiles uses for its own, stricter one
 	rux.SetGlobalVar("file", `[\w.-]+`)
-	e.Rule = "a sandbox tree (root with css/js/txt files, nested directories, a hidden file, files whose names end in the letters of an allowed extension without the dot; next to the root: secrets with and without allowed extensions, sibling directories rootx and root.bak, a same-named a.css) - every outside file carries a canary token; routers with StaticDir, StaticFiles (css|js, css), StaticFS(http.Dir), StaticFile under prefixes /s and /assets/v1 (also registered inside a group), the root spelled absolutely or relative to the working directory ('' and '.'), with/without UseEncodedPath and StrictLastSlash; request paths from a grammar of hostile segments (.., ., empty, %2e%2e, ..%2f, %2F, back-slashes, %00, NUL, trailing dots/blanks, case variants, absolute paths, over-long ../ chains, names of outside files), sent both as raw URL.Path (no client-side cleaning) and as escaped request targets parsed like a server. Oracle: no response body contains a canary or the name of an outside file; a 200 body that is not a directory listing equals a file under the root byte for byte; StaticFiles answers 200 only when the matched path ends in '.'+allowed extension; StaticFile returns only the configured file; no panic. Non-trivial: a path containing a dot-dot/encoded/absolute component or an outside name; distinct by (configuration, path). A second root is the dot-directory root/.pub (spelled absolutely or relatively) next to a decoy directory root/pub with same-named canary files; a global path variable named file is registered; segments with encoded ? and # behind forbidden file names; a file served by StaticFiles must itself carry an allowed extension. A third of the routers have a route cache of two entries and a second StaticFiles mount (/zz) with the other root; after the hostile requests: a file of the mount under test, two files of /zz, the first again."
+	e.Rule = "a sandbox tree (root with css/js/txt files, nested directories, a hidden file, files whose names end in the letters of an allowed extension without the dot; next to the root: secrets with and without allowed extensions, sibling directories rootx and root.bak, a same-named a.css, index.html pages) - every outside file carries a canary token; routers with StaticDir, StaticFiles (css|js, css), StaticFS(http.Dir), StaticFile under prefixes /s and /assets/v1 (also registered inside a group), the root spelled absolutely or relative to the working directory ('' and '.'), with/without UseEncodedPath and StrictLastSlash; request paths from a grammar of hostile segments (.., ., empty, %2e%2e, ..%2f, %2F, back-slashes, %00, NUL, trailing dots/blanks, case variants, absolute paths, over-long ../ chains, names of outside files), sent both as raw URL.Path (no client-side cleaning) and as escaped request targets parsed like a server. Oracle: no response body contains a canary or the name of an outside file; a 200 body that is not a directory listing equals a file under the root byte for byte; StaticFiles answers 200 only when the matched path ends in '.'+allowed extension; StaticFile returns only the configured file; no panic. Non-trivial: a path containing a dot-dot/encoded/absolute component or an outside name; distinct by (configuration, path). A second root is the dot-directory root/.pub (spelled absolutely or relatively) next to a decoy directory root/pub with same-named canary files; a global path variable named file is registered; segments with encoded ? and # behind forbidden file names; a file served by StaticFiles must itself carry an allowed extension. A third of the routers have a route cache of two entries and a second StaticFiles mount (/zz) with the other root; after the hostile requests: a file of the mount under test, two files of /zz, the first again."
 	e.Assumptions = []string{
 		"symlinks inside the root pointing outside are not part of the statement's tree (http.Dir follows them by design)",
 		"directory listings (FileServer) are allowed as long as they list nothing outside the root",
